@@ -451,6 +451,7 @@ func vfTunnelCase(c *vfCtx, dir string, plan vfTunnelPlan) {
 		if !agreed {
 			return // no tunnel was agreed: injecting protocol lines in-band would legitimately end the transfer
 		}
+		c.Obs("inband_garbage_injected_with_tunnel_agreed", 1)
 		for i := 0; i < 5; i++ {
 			s.srvW().Write([]byte("#fail:" + encodeString("in-band garbage") + "\n#DATA:zzz\n"))
 			s.clientIn.WriteAtomic([]byte("x"))
